@@ -247,6 +247,146 @@ fn main() {}
 '''
 
 
+SPECFORMS_TEMPLATE = r'''
+pub open spec fn hs_av<H, T>() -> nat { max_nat(align_of::<H>(), align_of::<T>()) }
+pub open spec fn hs_size<H, T>(len: nat) -> nat {
+    round_up((round_up(size_of::<H>(), align_of::<T>()) + len * size_of::<T>()) as nat, hs_av::<H, T>())
+}
+// ---- round_up is the LEAST multiple of a that is >= x; consequences ----
+pub proof fn lemma_round_up_least(x: nat, a: nat, m: nat)
+    requires a > 0, m % a == 0, m >= x
+    ensures round_up(x, a) <= m
+{
+    let k = m / a;
+    vstd::arithmetic::div_mod::lemma_fundamental_div_mod(m as int, a as int);
+    assert(m == a * k);
+    // (x + a - 1) / a <= (m + a - 1) / a == k
+    vstd::arithmetic::div_mod::lemma_div_is_ordered((x + a - 1) as int, (m + a - 1) as int, a as int);
+    assert(m + a - 1 == k * a + (a - 1)) by (nonlinear_arith) requires m == a * k;
+    vstd::arithmetic::div_mod::lemma_fundamental_div_mod_converse((m + a - 1) as int, a as int, k as int, (a - 1) as int);
+    let q = (x + a - 1) as nat / a;
+    assert(q <= k);
+    assert(q * a <= k * a) by (nonlinear_arith) requires q <= k, a > 0;
+    assert(k * a == m) by (nonlinear_arith) requires m == a * k;
+}
+pub proof fn lemma_round_up_shift(x: nat, a: nat)
+    requires a > 0
+    ensures round_up(a + x, a) == a + round_up(x, a)
+{
+    // (x + a - 1 + 1 * a) / a == (x + a - 1) / a + 1
+    vstd::arithmetic::div_mod::lemma_hoist_over_denominator((x + a - 1) as int, 1, a);
+    let q = (x + a - 1) as nat / a;
+    assert((a + x + a - 1) as nat / a == q + 1);
+    assert((q + 1) * a == a + q * a) by (nonlinear_arith);
+}
+pub proof fn lemma_multiple_of_multiple(r: nat, big: nat, small: nat)
+    requires small > 0, big > 0, big % small == 0, r % big == 0
+    ensures r % small == 0
+{
+    let c = big / small;
+    let q = r / big;
+    vstd::arithmetic::div_mod::lemma_fundamental_div_mod(big as int, small as int);
+    vstd::arithmetic::div_mod::lemma_fundamental_div_mod(r as int, big as int);
+    assert(r == (q * c) * small) by (nonlinear_arith) requires r == big * q, big == small * c;
+    vstd::arithmetic::div_mod::lemma_mod_multiples_basic((q * c) as int, small as int);
+}
+/// padding the value to its own alignment first (as allocate_for_header_and_slice does) does not
+/// change the padded block size, when the value alignment divides the block alignment
+pub proof fn lemma_inner_pad_harmless(x: nat, av: nat, big: nat)
+    requires av > 0, big > 0, big % av == 0
+    ensures round_up(big + round_up(x, av), big) == round_up(big + x, big)
+{
+    let y = round_up(x, av);
+    lemma_round_up(x, av);
+    lemma_round_up(x, big);
+    lemma_round_up(y, big);
+    lemma_round_up_shift(y, big);
+    lemma_round_up_shift(x, big);
+    // round_up(x,big) <= round_up(y,big): the latter is a multiple of big that is >= y >= x
+    lemma_round_up_least(x, big, round_up(y, big));
+    // y <= round_up(x,big): the latter is a multiple of av that is >= x
+    lemma_multiple_of_multiple(round_up(x, big), big, av);
+    lemma_round_up_least(x, av, round_up(x, big));
+    // hence round_up(y,big) <= round_up(x,big)
+    lemma_round_up_least(y, big, round_up(x, big));
+}
+
+// ---- the Kani-side closed forms, extracted VERBATIM from harness/vrt.rs ----
+fn spec_off(align: usize) -> (r: usize)
+    ensures r as nat == max_nat(8, align as nat)
+{
+    /* ---- verbatim from harness/vrt.rs fn spec_off ---- */
+@VRT_SPEC_OFF@
+}
+fn round_up128(x: u128, a: u128) -> (r: u128)
+    requires a > 0, x + a <= 0x7fff_ffff_ffff_ffff_ffff_ffff_ffff_ffffu128
+    ensures r as nat == round_up(x as nat, a as nat)
+{
+    proof {
+        let y = (x + a - 1) as nat;
+        let q = y / (a as nat);
+        assert(q * a <= y) by (nonlinear_arith) requires q == y / (a as nat), a > 0;
+    }
+    /* ---- verbatim from harness/vrt.rs fn round_up128 ---- */
+@VRT_ROUND_UP128@
+}
+fn max3(a: usize, b: usize, c: usize) -> (r: usize)
+    ensures r as nat == max_nat(max_nat(a as nat, b as nat), c as nat)
+{
+    /* ---- verbatim from harness/vrt.rs fn max3 ---- */
+@VRT_MAX3@
+}
+fn spec_block(vl: Layout) -> (r: (u128, usize))
+    requires lvalid(vl), align_ok(lalign(vl)), lsize(vl) + 2 * lalign(vl) + 16 <= isize::MAX as nat,
+    ensures r.1 as nat == max_nat(8, lalign(vl)),
+            r.0 as nat == round_up((max_nat(8, lalign(vl)) + lsize(vl)) as nat, max_nat(8, lalign(vl))),
+{
+    proof { lemma_round_up_8(lalign(vl)); }
+    /* ---- verbatim from harness/vrt.rs fn spec_block ---- */
+@VRT_SPEC_BLOCK@
+}
+fn spec_hs<H, T>(len: usize) -> (r: (u128, usize))
+    requires align_of::<H>() > 0, align_of::<T>() > 0, align_ok(hs_av::<H, T>()),
+        size_of::<H>() + (len as nat) * size_of::<T>() + 2 * align_of::<H>() + 2 * align_of::<T>() + 32 <= isize::MAX as nat,
+    ensures r.1 as nat == max_nat(8, hs_av::<H, T>()),
+            // == block layout of L1 applied to the value layout of L1b (inner padding is harmless)
+            r.0 as nat == round_up((max_nat(8, hs_av::<H, T>()) + hs_size::<H, T>(len as nat)) as nat, max_nat(8, hs_av::<H, T>())),
+{
+    proof {
+        let av = hs_av::<H, T>();
+        let big = max_nat(8, av);
+        lemma_round_up_8(av);
+        lemma_round_up(size_of::<H>(), align_of::<T>());
+        let x = (round_up(size_of::<H>(), align_of::<T>()) + len as nat * size_of::<T>()) as nat;
+        lemma_round_up(x, av);
+        lemma_round_up((big + x) as nat, big);
+        assert(big % av == 0) by { if av > 8 { assert(av % av == 0) by (nonlinear_arith) requires av > 0; } }
+        lemma_inner_pad_harmless(x, av, big);
+        assert(len as nat * size_of::<T>() <= isize::MAX as nat) by (nonlinear_arith)
+            requires size_of::<H>() + (len as nat) * size_of::<T>() + 2 * align_of::<H>() + 2 * align_of::<T>() + 32 <= isize::MAX as nat;
+    }
+    /* ---- verbatim from harness/vrt.rs fn spec_hs ---- */
+@VRT_SPEC_HS@
+}
+} // verus!
+fn main() {}
+'''
+
+
+def extract_specforms():
+    """the closed forms the Kani contracts compare the real code against (harness/vrt.rs: spec_off,
+    round_up128, max3, spec_block, spec_hs), bodies copied verbatim, proved equal to the Verus closed
+    forms of layout_extracted.rs — so Kani-side and Verus-side specifications cannot drift apart."""
+    vrt = open(os.path.join(VERIF, "harness", "vrt.rs")).read()
+    text = PREAMBLE + SPECFORMS_TEMPLATE
+    for name in ("spec_off", "round_up128", "max3", "spec_block", "spec_hs"):
+        m = re.search(r"\n(?:pub )?fn %s\b[^{]*\{\n(.*?)\n}\n" % name, vrt, re.S)
+        if not m:
+            raise Undecided("verus extraction: vrt::%s not found" % name)
+        text = text.replace("@VRT_%s@" % name.upper(), m.group(1))
+    return text
+
+
 def _fn_body(src, name, which=1):
     """text from the n-th `fn name` up to the next line starting a new fn at the same or lower indent"""
     ms = [m for m in re.finditer(r"^[ \t]*(?:pub(?:\([^)]*\))?\s+)?(?:unsafe\s+)?fn\s+%s\b" % re.escape(name), src, re.M)]
@@ -434,6 +574,12 @@ def run_for(prop, tier, logs):
         r.update(name="layout_extracted.rs (statements verbatim from /repo/src/arc.rs)", dropped=dropped, assumed=assumed,
                  extracted={k.strip("@"): " ".join(v.split()) for k, v in parts.items()})
         res.append(r)
+        p2 = os.path.join(gen, "spec_forms.rs")
+        open(p2, "w").write(extract_specforms())
+        r2 = vlib.run_verus(p2)
+        r2.update(name="spec_forms.rs (closed forms of harness/vrt.rs verbatim, proved equal to the layout lemmas' closed forms)",
+                  dropped="nothing: the five functions are copied whole", assumed=assumed)
+        res.append(r2)
     if prop in HISTORY_PROPS:
         text, ops = gen_history()
         p = os.path.join(gen, "history_lemma.rs")
